@@ -94,26 +94,43 @@ def run(ctx):
     # ---------------------------------------------------------------- 3. truncation durable before reuse/unlink
     lc = ctx.body('log::Log::clean_logs')
     if lc:
-        sl_ = lc.call_sites(SET_LEN)
-        sa = lc.call_sites(SYNC_ALL, SYNC_DATA)
+        # the truncation may sit in clean_logs itself, in a closure or in a helper extracted from it: every body of the family that
+        # truncates is checked on its own (set_len -> sync_all before it returns Ok), and in clean_logs a call to such a helper
+        # counts as the truncate+sync step
+        fam = lib.family(F, lc.path)
         pool = [bi for b, bi in lib.calls_on_field(F, ['re:VecDeque.*::(extend|push_back|push_front|append)$', 're:Extend.*>::extend$'], '.Log.log_pool', bodies=[lc])]
         drops = lc.call_sites('log::Log::drop_log')
-        ctx.ob('3a truncate-site', 'anchor', lc.path, 'Log::clean_logs truncates with set_len', bool(sl_) and bool(pool), 'set_len sites %s pool sites %s' % (sl_, pool))
-        w = None
-        for s in sl_:
-            w = lc.find_path([x for x in lc.succ(s)], set(pool) | set(drops) | set(lc.return_blocks()), removed=set(sa) | core.error_exit_blocks(lc))
+        trunc_bodies = [x for x in fam if x.call_sites(SET_LEN)]
+        ctx.ob('3a truncate-site', 'anchor', lc.path, 'Log::clean_logs truncates with set_len', bool(trunc_bodies) and bool(pool), 'truncating bodies %s pool sites %s' % ([x.path for x in trunc_bodies], pool))
+        w, wb = None, None
+        for x in trunc_bodies:
+            sa = x.call_sites(SYNC_ALL, SYNC_DATA)
+            goals = set(x.return_blocks()) | (set(pool) | set(drops) if x is lc else set())
+            for s in x.call_sites(SET_LEN):
+                w = x.find_path([y for y in x.succ(s)], goals, removed=set(sa) | core.error_exit_blocks(x))
+                if w or not sa:
+                    w, wb = (w or ['no sync call']), x
+                    break
             if w:
                 break
         ctx.ob('3b truncate-synced-before-reuse', 'K2-order', lc.path,
                'after set_len(0) the file is sync_all-ed on every success path before it can enter the pool, be unlinked, or the function returns Ok',
-               w is None and bool(sl_) and bool(sa), '' if w is None else 'path from truncation to reuse without sync: ' + lib.short_path(lc, w), lc.loc(sl_[0]) if sl_ else None)
-        for s in sl_:
-            t = lc.term(s)
-            z = t['a'][1].get('i') if len(t['a']) > 1 else None
-            ctx.ob('3c truncate-to-zero', 'K8-const', lc.path, 'the log is truncated to length 0 (a constant)', z == 0, 'set_len operand: %s' % core.op_str(t['a'][1]))
+               w is None and bool(trunc_bodies), '' if w is None else 'path from truncation to reuse without sync in %s: %s' % (wb.path, lib.short_path(wb, w) if isinstance(w[0], int) else w[0]))
+        if lc not in trunc_bodies and trunc_bodies:
+            # helper form: the helper's result is looked at before the file goes to the pool
+            hs = lib.sites_reaching(lc, [x.path for x in trunc_bodies])
+            for pl in pool[:1]:
+                lib.precedes(ctx, '3b2 truncation-before-pool', lc, hs, [pl], 'a log enters the pool only after the truncate+sync step ran')
+        for x in trunc_bodies:
+            for s in x.call_sites(SET_LEN):
+                t = x.term(s)
+                z = t['a'][1].get('i') if len(t['a']) > 1 else None
+                ctx.ob('3c truncate-to-zero', 'K8-const', x.path, 'the log is truncated to length 0 (a constant)', z == 0, 'set_len operand: %s' % core.op_str(t['a'][1]))
     # logs are truncated oldest first (a power loss between two truncations must leave a suffix-closed set of logs:
     # an older log surviving while a newer one is gone would be replayed over newer flushed state)
     shared.queue_discipline(ctx, '3q')
+    shared.failed_cleanup_keeps_queue_order(ctx, '3')   # also when a truncation fails: the logs not cleaned stay in front of the newer ones
+    shared.torn_record_not_handed_over(ctx, '1')        # only complete records reach the stage that writes tables
     # every table the applier may write to is msynced by the column flush that precedes log truncation: besides the current index,
     # the value tables and the current ref-count table these are the OLD index / ref-count tables still queued for re-indexing
     # (HashColumn::enact_plan writes into them for records planned before the growth, and replay does at open)
@@ -152,7 +169,7 @@ def run(ctx):
     bad = []
     for b in F.bodies.values():
         for bi, t in b.calls():
-            if core.call_matches(t, [SET_LEN]) and b.path != 'log::Log::clean_logs':
+            if core.call_matches(t, [SET_LEN]) and not lib.site_in(F, 'log::Log::clean_logs', b.path):
                 if len(t['a']) > 1 and t['a'][1].get('i') == 0:
                     bad.append(b.path)
     ctx.ob('5b only-log-truncates', 'K8-const', ','.join(bad) or '-', 'no set_len outside Log::clean_logs truncates to 0', not bad, str(bad))
